@@ -126,8 +126,8 @@ pub fn run_check(prop: &str, tier: &str) -> i32 {
             // one history with a >507-extent batch: torn multi-block journal writes
             bigbatch::run(&["C02", "C03"], &mut report);
             // flush acknowledgements racing the background flusher, every schedule within the bound
-            let seen = std::sync::Mutex::new(std::collections::HashSet::new());
-            let judge = |p: &schedprops::Program, ex: &schedprops::Exec| schedprops::judge_acknowledged(p, ex, &seen);
+            let cache = std::sync::Mutex::new(std::collections::HashMap::new());
+            let judge = |p: &schedprops::Program, ex: &schedprops::Exec| schedprops::judge_acknowledged(p, ex, &cache);
             schedprops::run_programs(c08::ack_programs(), if thorough { 3 } else { 2 }, 4000, budget * 0.3, &judge, None, &["C02", "C03"], &mut report);
         }
         "C03" => {
@@ -318,7 +318,9 @@ pub fn replay(path: &str) -> i32 {
                         println!("  final {} -> {}", p.tables.describe(o), out.brief());
                     }
                 }
+                let cache = std::sync::Mutex::new(std::collections::HashMap::new());
                 let msgs = match &ex.outcome {
+                    crate::sched::Outcome::Completed if p.name.starts_with("ack:") => schedprops::judge_acknowledged(&p, &ex, &cache),
                     crate::sched::Outcome::Completed => schedprops::judge_linearizable(&p, &ex),
                     other => vec![format!("C18: {other:?}")],
                 };
